@@ -16,7 +16,7 @@ pub fn def() -> PropDef {
         rule: "programs: enums reachable from the 3-variant base by <=k deviations over variant kinds (core-only field palette), serialize / to_string / positional and named \
                placeholders, disabled, default, transparent, default_with, ascii_case_insensitive, message / detailed_message / docs / props, explicit discriminants, repr, \
                serialize_all, prefix, parse_err_*, const_into_str, generics <T>, <const N>, <'a>, strum_discriminants(derive/name/vis/pass-through); each program carries EVERY \
-               non-deprecated derive it admits. configurations: (a) #![no_std] lib without alloc, strum default-features=false; (b) strum reachable only as `strum_x` / \
+               non-deprecated derive it admits. configurations: (a) #![no_std] edition-2018 lib without alloc, strum default-features=false; (b) strum reachable only as `strum_x` / \
                `crate::re::strum_x` / `::strum_x` / a `use .. as st` alias through #[strum(crate = ..)]; (c) `mod core {}` / `mod std {}` declared next to every enum. oracle: rustc accepts the module; any diagnostic is \
                attributed to its program. non-trivial = every (program, configuration) pair with >= 1 deviation",
         trusted_base: &["rustc (type checking of the expanded code)", "the admissible-derive table in vf-core/props/c19.rs"],
